@@ -45,8 +45,10 @@ Definition prop_C16 (c : c16case) : bool :=
   && for_ids g (c_sib c) [] (fun x o => prop_sib g x o)
   && for_ids g (c_goto c) [] (fun a row => for_ids g row (0, []) (fun b o => prop_goto g a b (fst o) (snd o))).
 
+(* the harness only performs legal insertions: links that do not form a consistent acyclic structure
+   are reported, not skipped *)
 Definition check_C16 (c : c16case) : nat :=
-  if negb (valid_dag (c_g c)) then F_SKIP else
+  if negb (valid_dag (c_g c)) then F_DISAGREE else
   flag (negb (agree_C16 c)) F_DISAGREE + flag (negb (prop_C16 c)) F_PROPFAIL.
 
 (* ------------------------------------------------------------------------------------------- *)
@@ -117,6 +119,7 @@ Definition prop_C17 (c : iocase) : bool :=
   | IORawDf rows r => prop_C17_cycle (df_relations rows) r
   end.
 
+(* export cases are generated with distinct names and legal insertions only *)
 Definition skip_C17 (c : iocase) : bool :=
   match c with
   | IOExport g s md _ _ _ _ _ _ =>
@@ -125,5 +128,5 @@ Definition skip_C17 (c : iocase) : bool :=
   end.
 
 Definition check_C17 (c : iocase) : nat :=
-  if skip_C17 c then F_SKIP else
+  if skip_C17 c then F_DISAGREE else
   flag (negb (agree_C17 c)) F_DISAGREE + flag (negb (prop_C17 c)) F_PROPFAIL.
